@@ -33,8 +33,13 @@ func VH_C05_DecodeV2(nb, corrupt int) {
 	first := vhInt64("log_fragment_start")
 	vhAssume(vhAll(first >= 0, first < 1<<40))
 	wire, stored, _, _ := vhLogV2(nb, first)
+	if corrupt == 3 {
+		// the response begins with a control batch (a transaction marker), e.g. when the fetch position lands on it
+		marker := vhEncBatchV2(first-1, 0x20, 0, 1600000000000, 1600000000000, 1, []vhRec{{key: []byte{0, 0, 0, 1}, value: []byte{0, 0, 0, 0, 0, 0}}})
+		wire = append(marker, wire...)
+	}
 	nLast := 0 // records of the last batch
-	if corrupt != 0 {
+	if corrupt == 1 || corrupt == 2 {
 		// re-encode: take the last batch apart is not needed - build one more batch with the defect
 		k := vhBytes("key", 1)
 		v := vhBytes("value", 2)
@@ -205,10 +210,12 @@ func VH_C05_EncodeV2(n int) {
 		}
 		return vhBytes(name, 2)
 	}
+	// record times in milliseconds after t0: not monotonic (records may carry any creation time)
+	tsMs := []int{500, 150, 700, 0}
 	for i := range recs {
 		kshape[i], vshape[i] = vhChoose("key_shape", 3), vhChoose("value_shape", 3)
 		keys[i], vals[i] = mk("key", kshape[i]), mk("value", vshape[i])
-		recs[i] = Record{Time: time.Unix(1600000000, int64(i)*7000000), Key: NewBytes(keys[i]), Value: NewBytes(vals[i])}
+		recs[i] = Record{Time: time.Unix(1600000000, int64(tsMs[i])*1000000), Key: NewBytes(keys[i]), Value: NewBytes(vals[i])}
 		if i == 0 {
 			recs[i].Headers = []Header{{Key: "h", Value: vhBytes("header_value", 1)}}
 		}
@@ -227,10 +234,10 @@ func VH_C05_EncodeV2(n int) {
 	vhAssert(d.magic == 2, "magic")
 	vhAssert(d.crc == d.crcComputed, "crc-covers-attributes-to-end")
 	vhAssert(vhAll(int(d.count) == n, int(d.lastOffsetDelta) == n-1), "count-and-last-offset-delta")
-	vhAssert(d.firstTs == 1600000000000, "first-timestamp")
+	vhAssert(d.firstTs == 1600000000000+int64(tsMs[0]), "first-timestamp-is-the-first-records")
 	for i := 0; i < n && i < len(d.recs); i++ {
 		vhAssert(d.recs[i].offsetDelta == int64(i), "offset-delta-is-the-index")
-		vhAssert(d.firstTs+d.recs[i].tsDelta == 1600000000000+int64(i)*7, "timestamp-delta")
+		vhAssert(d.firstTs+d.recs[i].tsDelta == 1600000000000+int64(tsMs[i]), "timestamp-delta")
 		vhAssert(d.keyNull[i] == (kshape[i] == 0), "null-key-stays-null-empty-stays-empty")
 		vhAssert(d.valNull[i] == (vshape[i] == 0), "null-value-stays-null-empty-stays-empty")
 		vhAssert(vhAll(vhBytesEq(d.recs[i].key, keys[i]), vhBytesEq(d.recs[i].value, vals[i])), "key-and-value-bytes")
